@@ -66,6 +66,7 @@ int main(int argc, char **argv) {
     std::string family, prop, file;
     uint64_t base = 1, count = 1, seed = 1;
     bool verbose = false;
+    uint64_t first_variant = 0;   // resume the enumeration of seed <base> at this variant (the worker that ran the earlier ones was retired)
     long long deadline = 0;   // wall-clock second after which no new execution is started (batch budget; never read inside a run)
     for (int i = 2; i < argc; i++) {
         std::string a = argv[i];
@@ -77,6 +78,7 @@ int main(int argc, char **argv) {
         else if (a == "--seed") seed = strtoull(next().c_str(), nullptr, 10);
         else if (a == "--dump-dir") g_dump_dir = next();
         else if (a == "--deadline") deadline = strtoll(next().c_str(), nullptr, 10);
+        else if (a == "--first-variant") first_variant = strtoull(next().c_str(), nullptr, 10);
         else if (a == "--verbose") verbose = true;
         else if (file.empty()) file = a;
     }
@@ -121,7 +123,8 @@ int main(int argc, char **argv) {
             if (f->variants) p.p["record_calls"] = 1;
             g_cur_seed = s;
             g_cur_plan = p;
-            printf("START %llu\n", (unsigned long long)s);
+            bool resume = first_variant > 0 && s == base;
+            if (!resume) printf("START %llu\n", (unsigned long long)s);
             auto t0 = std::chrono::steady_clock::now();
             Result r = run_plan(p, verbose);
             Json j = r.to_json();
@@ -130,9 +133,11 @@ int main(int argc, char **argv) {
                 std::string path = dump_plan(p, "");
                 if (!path.empty()) j.set("plan_file", path);
             }
-            printf("END %llu %s\n", (unsigned long long)s, j.dump().c_str());
-            fflush(stdout);
-            retire_if_dirty(r);
+            if (!resume) {   // (when resuming, the reference execution is only repeated to regenerate the variants)
+                printf("END %llu %s\n", (unsigned long long)s, j.dump().c_str());
+                fflush(stdout);
+                retire_if_dirty(r);
+            } else if (r.stat.count("must_exit")) _exit(0);
             if (!f->variants) continue;
             // fault enumeration: every variant of the reference execution is an explicit plan of its own
             std::vector<Plan> vs;
@@ -140,7 +145,7 @@ int main(int argc, char **argv) {
             r.calls.clear();
             size_t vdone = 0;
             bool truncated = !vs.empty() && vs[0].P("enum_truncated") != 0;
-            for (size_t vi = 0; vi < vs.size(); vi++) {
+            for (size_t vi = (resume ? (size_t)first_variant - 1 : 0); vi < vs.size(); vi++) {
                 if (deadline && real_now_s() >= deadline + 20) { truncated = true; break; }   // grace: finish scenarios that are nearly done
                 Plan &vp = vs[vi];
                 vp.p["variant"] = (int64_t)vi + 1;
@@ -167,9 +172,9 @@ int main(int argc, char **argv) {
                 fflush(stdout);
                 vdone++;
                 if (vi + 1 < vs.size()) retire_if_dirty(vr);
-                else { printf("SCEN %llu %zu %d\n", (unsigned long long)s, vdone, truncated ? 0 : 1); fflush(stdout); retire_if_dirty(vr); }
+                else { printf("SCEN %llu %zu %d\n", (unsigned long long)s, vs.size(), truncated ? 0 : 1); fflush(stdout); retire_if_dirty(vr); }
             }
-            if (vdone < vs.size() || vs.empty()) { printf("SCEN %llu %zu %d\n", (unsigned long long)s, vdone, (truncated || !vs.empty()) ? 0 : 1); fflush(stdout); }
+            if (vdone + (resume ? first_variant - 1 : 0) < vs.size() || vs.empty()) { printf("SCEN %llu %zu %d\n", (unsigned long long)s, vdone, (truncated || !vs.empty()) ? 0 : 1); fflush(stdout); }
         }
         return 0;
     }
